@@ -24,10 +24,20 @@ def _install(counter, kill_at, log, how='sigkill'):
 				died.append(True)       # only once: clean-up code that runs after a catchable signal must not be interrupted again
 				_die(how)
 			counter[0] += 1
-			log.append(label)
+			if label == 'open':
+				# which file: the checks need to know when the OUTPUT path is first touched
+				try:
+					log.append('open:' + os.path.basename(os.fspath(a[0] if a else kw.get('name'))))
+				except Exception:
+					log.append('open')
+			else:
+				log.append(label)
 			return orig(self, *a, **kw)
 		setattr(cls, name, wrapper)
 
+	# opening a file is a storage-library call too: a kill point before it covers everything a writer does between two files
+	# (e.g. a command that touches its output path early and writes the data much later)
+	wrap(h5py.File, '__init__', 'open')
 	wrap(h5py.AttributeManager, '__setitem__', 'attr')
 	wrap(h5py.Group, 'create_dataset', 'create_dataset')
 	wrap(h5py.Dataset, '__setitem__', 'dataset_write')
